@@ -5,6 +5,7 @@
 \*   QUOTA     max active mappings per client   CLAIM / CRB   repaired design switches (FALSE FALSE = code as it was)
 \*   NODE2     processes calling through node n2      CLOCAL  TRUE: claim key routed to the node-local cache tier
 \*   SAME      activators submitting as a1's listen client   RECLAIM  design variant idempotent re-claim
+\*   RESET     design variant reset-on-failed-update   TICK  time may pass (< code lifetime)   SHORT  design variant short claim TTL
 \*   VIEW      view (exhaustive) | gview (generation: ghosts hidden, hist hidden)
 CONSTANTS
   Acts = @@ACTS@@
@@ -19,6 +20,9 @@ CONSTANTS
   ClaimLocal = @@CLOCAL@@
   SameAs = @@SAME@@
   Reclaim = @@RECLAIM@@
+  ResetOnFail = @@RESET@@
+  CanTick = @@TICK@@
+  ShortClaim = @@SHORT@@
   Emit = @@EMIT@@
 INIT Init
 NEXT Next
